@@ -31,6 +31,20 @@ Theorem C12_source_fail_no_effect : forall (c : config) (r : read_result) (creat
   run_rs c r create_ok = (eff, false) -> eff = [].
 Proof. exact run_rs_fail_no_effect. Qed.
 
+(* non-vacuity: a run that writes a file, one whose output cannot be created, an unreadable input,
+   an input without an element *)
+Example C12_source_example :
+  let a := {| a_parser := Some PSerdeXmlRs; a_derive := Some (s "Debug"); a_sort := Some XmlName; a_output := true |} in
+  let evs := [EStart (ROk (s "a")) [AOk (ROk (s "k"))]; EEnd] in
+  main_rs (resolve a) (RText evs) true = cli_run a (RText evs) true
+  /\ snd (main_rs (resolve a) (RText evs) true) = 0%N
+  /\ List.length (fst (main_rs (resolve a) (RText evs) true)) = 2%nat
+  /\ main_rs (resolve a) (RText evs) false = ([Stderr], 1%N)
+  /\ main_rs (resolve a) RFail true = ([Stderr], 1%N)
+  /\ main_rs (resolve a) (RText [EMisc]) true = ([Stderr], 1%N).
+Proof. exact cli_source_example. Qed.
+
 Print Assumptions C12_source_options.
+Print Assumptions C12_source_example.
 Print Assumptions C12_source_main.
 Print Assumptions C12_source_fail_no_effect.
